@@ -627,6 +627,9 @@ def make_roundtrip(tier):
         "savers": st.sampled_from([["HTML5"], ["XHTML"], ["HTML5", "XHTML"], ["XHTML", "HTML5"],
                                    ["HTML5", "XHTML"], ["XHTML", "HTML5"]]),
         "reader": renderer_st,
+        # with two savers: the second renderer renders the document object the first one rendered
+        # (instead of a fresh parse of the same source)
+        "reuse": st.sampled_from([False, False, True]),
         "pauxdir": st.sampled_from([False, False, True])})
 
 
@@ -657,10 +660,17 @@ def check_roundtrip(case):
         path = os.path.join(d1, "D1.paux")
         caps = {}
         state, clean = pm.MISSING, True
+        parsed = None
         for rname in savers:
-            box, err = render_doc(src, rname, "D1")
+            if parsed is not None and case.get("reuse"):
+                parsed.config["general"]["renderer"] = rname
+                feats.add("second-renderer-on-same-document-object")
+            else:
+                parsed = None
+            box, err = render_doc(src, rname, "D1", document=parsed)
             if err is not None:
                 return render_failure(box, err, state, rname, feats)
+            parsed = box.get("document")
             bad = pm.check_capture(exp, box["cap"])
             if bad is not None:
                 return fail(bad[0], dict(bad[1], renderer=rname, source=src), feats)
@@ -978,7 +988,8 @@ class Machine(HistoryMachine):
 # --------------------------------------------------------------------------
 RULE_RT = ("label sets of 0-12 objects (section/subsection/equation/two \\newtheorem environments/figure with "
            "caption/paragraph; ~5/6 labelled; titles of 1-4 pieces: plain and non-ASCII words, \\emph, \\textbf, "
-           "$math$); D1 rendered by HTML5, XHTML or both into one directory; D2 (other jobname; same directory or "
+           "$math$); D1 rendered by HTML5, XHTML or both into one directory (both: from two parses or, 1/3, the same "
+           "document object rendered twice); D2 (other jobname; same directory or "
            "another one with paux-dirs) goes through plasTeX.Compile.parse with either renderer name and is "
            "rendered. Non-trivial: >=3 labels and two renderer keys in the file.")
 RULE_TR = ("label sets (quick 0-4 objects, thorough 0-12), renderer HTML5|XHTML, 1/4 with the other renderer's "
